@@ -85,7 +85,7 @@ func DistanceLineToLine(line1Start, line1End, line2Start, line2End geom.Coord) f
 	if Equals(line1Start, line1End) {
 		return DistancePointToLine(line1Start, line2Start, line2End)
 	}
-	if Equals(line2Start, line1End) {
+	if Equals(line2Start, line2End) {
 		return DistancePointToLine(line2Start, line1Start, line1End)
 	}
 
